@@ -82,12 +82,33 @@ def node_of(graph, url):
     return e
 
 
+def call_get(client, url, follow, call=None):
+    """GeminiClient.get as a caller may write it: the documented signature is get(url, follow_redirects=True), so the flag may be
+    given by keyword or as the second POSITIONAL argument - both spellings must mean the same thing (case key `call`)"""
+    if call == "positional":
+        return client.get(url, follow)
+    return client.get(url, follow_redirects=follow)
+
+
+def spread_calls(cases, key="call", every=3, phase=1):
+    """mark every `every`-th case of an enumeration as one whose flag is passed positionally (no random draws: the cases
+    themselves stay what they were)"""
+    for i, c in enumerate(cases):
+        if i % every == phase:
+            c[key] = "positional"
+        yield c
+
+
 class Graph(Family):
     name = "graph"
     quick_n = 6000
     thorough_n = 120000
 
     def gen(self, rng: random.Random, n: int):
+        # every third case passes the follow flag as the second positional argument, get(url, False) / get(url, True)
+        return spread_calls(self._gen(rng, n))
+
+    def _gen(self, rng: random.Random, n: int):
         # exhaustive part: all graphs over 3 URLs where each node is final or redirects to one of the 3 (or to an odd target)
         urls = POOL[:3]
         outs = [["f", 20], ["e"]] + [["r", 30, t] for t in urls] + [["r", 31, "http://a/"], ["r", 30, ""]]
@@ -156,7 +177,7 @@ class Graph(Family):
             client.max_redirects = case["max"]
             client._get_single = fake_single  # type: ignore[method-assign]
             try:
-                r = await client.get(case["start"], follow_redirects=case["follow"])
+                r = await call_get(client, case["start"], case["follow"], case.get("call"))
             except ValueError as ex:
                 m = str(ex)
                 kind = "loop" if "loop" in m.lower() else "toomany" if "aximum redirects" in m else "missing" if "missing URL" in m else "valueerror:" + m[:40]
@@ -199,6 +220,12 @@ class Graph(Family):
         return {"r": r, "conns": conns}
 
     def oracle(self, case, obs):
+        v = self._oracle(case, obs)
+        if v and case.get("call") == "positional":
+            return (v[0], f"called as get({case['start']!r}, {case['follow']}) - the flag as second positional argument: " + v[1])
+        return v
+
+    def _oracle(self, case, obs):
         mx, g, start = case["max"], case["graph"], case["start"]
         conns, r = obs["conns"], obs["r"]
         if not case["follow"]:
@@ -253,6 +280,13 @@ class Overlap(Family):
     thorough_n = 15000
 
     def gen(self, rng: random.Random, n: int):
+        # in every third case ONE of the fetches is written get(url, True)
+        for i, c in enumerate(self._gen(rng, n)):
+            if i % 3 == 1:
+                c["fetches"][(i // 3) % len(c["fetches"])]["call"] = "positional"
+            yield c
+
+    def _gen(self, rng: random.Random, n: int):
         g0 = Graph()
         fixed = []
         # a chain longer than max_redirects, a second fetch started while the first is between hops
@@ -265,7 +299,11 @@ class Overlap(Family):
                                                       {"start": "gemini://f1/a", "graph": loop, "delay": delay2, "lat": 1}]})
         for c in self.share(fixed):
             yield c
-        sub = g0.gen(random.Random(rng.randrange(1 << 30)), 10 ** 9)
+        # the graphs come from family graph's enumeration; each process of a sharded run walks ITS part of it (every k-th graph), so
+        # that the few hundred graphs a process draws range over the whole enumeration and not only over its first entries (whose
+        # start URL answers 20 at once)
+        g0.shard = self.shard
+        sub = g0._gen(random.Random(rng.randrange(1 << 30)), 10 ** 9)
         for _ in range(n):
             k = rng.choice([2, 2, 3])
             mx = rng.randint(0, 5)
@@ -311,7 +349,7 @@ class Overlap(Family):
                 for _ in range(f["delay"]):
                     await asyncio.sleep(0)
                 try:
-                    r = await client.get(f["start"], follow_redirects=True)
+                    r = await call_get(client, f["start"], True, f.get("call"))
                 except ValueError as ex:
                     m = str(ex)
                     return ["error", "loop" if "loop" in m.lower() else "toomany" if "aximum redirects" in m else "missing" if "missing URL" in m else "valueerror:" + m[:40]]
@@ -339,7 +377,7 @@ class Overlap(Family):
     def oracle(self, case, obs):
         g0 = Graph()
         for j, f in enumerate(case["fetches"]):
-            sub = {"max": case["max"], "graph": f["graph"], "start": f["start"], "follow": True}
+            sub = {"max": case["max"], "graph": f["graph"], "start": f["start"], "follow": True, "call": f.get("call")}
             v = g0.oracle(sub, obs["together"][j])
             if v:
                 return (v[0], f"fetch {j + 1} of {len(case['fetches'])} overlapping fetches on one client: " + v[1])
@@ -392,6 +430,10 @@ class Live(Family):
     thorough_n = 2400
 
     def gen(self, rng: random.Random, n: int):
+        # every third case calls get(url, <flag>) with the flag as the second positional argument (no meaning through the command line)
+        return spread_calls(self._gen(rng, n))
+
+    def _gen(self, rng: random.Random, n: int):
         hosts = ["localhost", "127.0.0.1", "127.0.0.2"]
         # a host that comes back later in the chain with another certificate AND written in another case: the same host, the same pin
         fixed = []
@@ -619,7 +661,7 @@ class Live(Family):
                 client = client_box[0]
                 client.max_redirects = mx
                 try:
-                    r = await client.get(urls[0], follow_redirects=follow)
+                    r = await call_get(client, urls[0], follow, case.get("call"))
                 except CertificateChangedError:
                     return ["error", "certchanged"]
                 except ValueError as ex:
@@ -690,6 +732,12 @@ class Live(Family):
         return None   # the Lean model is compared in family graph; here the oracle speaks
 
     def oracle(self, case, obs):
+        v = self._oracle(case, obs)
+        if v and case.get("call") == "positional" and not case.get("via"):
+            return (v[0], "called as get(url, <follow>) - the flag as second positional argument: " + v[1])
+        return v
+
+    def _oracle(self, case, obs):
         pins: dict = {}
         v = self._judge(case, obs, obs["ports"], pins)
         if v or not case.get("again") or not obs.get("again"):
